@@ -278,13 +278,17 @@ def gen_world(r, anp=False, big=False, pods=True, multi_kind=True):
             for dd in dirs:
                 hi[dd] = [stack_rule(dd, acts[0], 'h')]
                 lo[dd] = [stack_rule(dd, acts[1], 'l')]
-            shadow = acts[0] != 'Pass' and r.random() < 0.5
+            if r.random() < 0.35:
+                acts = ('Deny', 'Allow')
+                for dd in dirs:
+                    hi[dd][0]['action'], lo[dd][0]['action'] = acts
+            shadow = acts[0] != 'Pass' and r.random() < 0.6
             if shadow:
                 # the lower policy is completely shadowed: it speaks of one port strictly inside the range the higher one decides
                 prs = r.choice(PROTOS)
                 for dd in dirs:
                     hi[dd][0]['ports'] = [{'portRange': {'protocol': prs, 'start': 80, 'end': 90}}]
-                    lo[dd][0]['ports'] = [{'portNumber': {'protocol': prs, 'port': 85}}] + ([{'portNumber': {'protocol': prs, 'port': 88}}] if r.random() < 0.5 else [])
+                    lo[dd][0]['ports'] = [{'portNumber': {'protocol': prs, 'port': 85}}] + ([{'portNumber': {'protocol': prs, 'port': 88}}] if r.random() < 0.7 else [])
             pair = [lo, hi]          # given out of priority order
             for a in pair:
                 W['anps'].insert(r.randrange(len(W['anps']) + 1), a)
